@@ -145,34 +145,53 @@ func checkSoftGetSet(p *Prog, r *Report) {
 		}
 		v := ret.Results[0]
 		key := "Get:" + p.describe(ret)
-		switch {
-		case isNilConst(v):
-			r.ok("C17.get-returns-stored", key, p.pos(ret.Pos()), "nil for names outside the type")
-		default:
-			good := false
-			why := ""
+		// one value under the branch outcomes that hold where it is produced
+		judge := func(v ssa.Value, facts []edgeFact) (bool, string) {
+			if isNilConst(v) {
+				return true, "nil for names outside the type"
+			}
 			if mi, ok := v.(*ssa.MakeInterface); ok {
 				if c, _ := callOf(mi.X); c != nil && c.Common().StaticCallee() != nil && c.Common().StaticCallee().Name() == "GetID" {
-					idFact := false
-					for _, ef := range expandFacts(factsAt(ret.Block())) {
+					for _, ef := range expandFacts(facts) {
 						if bo, ok := ef.Cond.(*ssa.BinOp); ok && bo.Op == token.EQL && ef.Truth {
 							if s, ok := constString(bo.Y); ok && s == "id" && bo.X == ssa.Value(get.Params[1]) {
-								idFact = true
+								return true, "GetID() under key == \"id\""
 							}
 						}
 					}
-					good, why = idFact, "GetID() under key == \"id\""
+					return false, ""
 				}
 			}
+			lkv := v
 			if ex, ok := v.(*ssa.Extract); ok && ex.Index == 0 {
-				if lk, ok := ex.Tuple.(*ssa.Lookup); ok && lk.Index == ssa.Value(get.Params[1]) {
-					if _, fl, ok := fieldLoad(lk.X); ok && fl == "data" {
-						good, why = true, "the value stored under the key"
-					}
+				lkv = ex.Tuple
+			}
+			if lk, ok := lkv.(*ssa.Lookup); ok && lk.Index == ssa.Value(get.Params[1]) {
+				if _, fl, ok := fieldLoad(lk.X); ok && fl == "data" {
+					return true, "the value stored under the key (nil when there is none)"
 				}
 			}
-			r.decide(good, "C17.get-returns-stored", key, p.pos(ret.Pos()), why, "Get returns something other than the stored value, GetID() for \"id\", or nil")
+			return false, ""
 		}
+		good, why := false, ""
+		if phi, isPhi := v.(*ssa.Phi); isPhi && len(phi.Edges) > 0 {
+			// single exit: every value merged into the result is judged on its edge
+			good = true
+			for k, e := range phi.Edges {
+				pred := phi.Block().Preds[k]
+				facts := factsAt(pred)
+				if ifi, ok := pred.Instrs[len(pred.Instrs)-1].(*ssa.If); ok && pred.Succs[0] != pred.Succs[1] {
+					facts = append(facts, edgeFact{Cond: ifi.Cond, Truth: pred.Succs[0] == phi.Block(), From: pred})
+				}
+				if ok, _ := judge(e, facts); !ok {
+					good = false
+				}
+			}
+			why = "every value merged into the result is GetID() for \"id\", the stored value, or nil"
+		} else {
+			good, why = judge(v, factsAt(ret.Block()))
+		}
+		r.decide(good, "C17.get-returns-stored", key, p.pos(ret.Pos()), why, "Get returns something other than the stored value, GetID() for \"id\", or nil")
 	})
 	// Set: what is stored (in Set itself or in the small helpers it hands key and value to)
 	isGiven := func(v ssa.Value, target *ssa.Parameter) bool {
@@ -361,8 +380,14 @@ func checkWrapperGetSet(p *Prog, r *Report) {
 		if !ok || isNilConst(ret.Results[0]) {
 			return
 		}
-		if c, _ := callOf(ret.Results[0]); c != nil && c.Common().StaticCallee() != nil && fullName(c.Common().StaticCallee()) == "reflect.(Value).Interface" {
-			okIface = true
+		// the result, or (single exit) every non-nil value merged into it
+		for _, o := range origins(ret.Results[0]) {
+			if c, _ := callOf(o); c != nil && c.Common().StaticCallee() != nil && fullName(c.Common().StaticCallee()) == "reflect.(Value).Interface" {
+				okIface = true
+			} else if !isNilConst(o) {
+				okIface = false
+				return
+			}
 		}
 	})
 	r.decide(okIface, "C17.get-returns-stored", "getField:returns-Interface()", p.pos(gf.Pos()), "returns the field's value as is", "Wrapper.getField does not return the located field's value as is")
